@@ -6,7 +6,9 @@ package holepunch
 // stream handler the service registered on the fake host, with crafted inbound coordination streams.
 
 import (
+	"encoding/json"
 	"fmt"
+	"os"
 	"strings"
 	"testing"
 	"testing/synctest"
@@ -16,6 +18,7 @@ import (
 	"github.com/libp2p/go-libp2p/p2p/protocol/holepunch/pb"
 	"github.com/libp2p/go-libp2p/x/verif/vrep"
 	"github.com/libp2p/go-msgio/pbio"
+	ma "github.com/multiformats/go-multiaddr"
 )
 
 const (
@@ -121,10 +124,8 @@ func c12hpRunRecv(t *testing.T, w *c12hpWorld, c *c12hpRecvCase) (o c12hpRecvObs
 					}
 				}
 			}()
-			if c.First <= c12hpAnsMalformedRel {
-				raw, _ := c12hpAnswerBytes(w, c.First)
-				h.noteOffered(c12hpParse(raw))
-			}
+			raw, _ := c12hpAnswerBytes(w, c.First)
+			h.noteOffered(c12hpParse(raw))
 			if !c12hpPlayRemote(w, remote, c.First) {
 				return
 			}
@@ -143,6 +144,7 @@ func c12hpRunRecv(t *testing.T, w *c12hpWorld, c *c12hpRecvCase) (o c12hpRecvObs
 			case c12hpSecondSync:
 				wr.WriteMsg(&pb.HolePunch{Type: pb.HolePunch_SYNC.Enum()})
 			case c12hpSecondConnect:
+				h.noteOffered([]ma.Multiaddr{w.remPubTCP})
 				wr.WriteMsg(&pb.HolePunch{Type: pb.HolePunch_CONNECT.Enum(), ObsAddrs: [][]byte{w.remPubTCP.Bytes()}})
 			case c12hpSecondGarbage:
 				remote.Write([]byte{0xff, 0xff, 0xff, 0xff, 0x7f, 0x01})
@@ -295,7 +297,72 @@ func c12hpReceiver(t *testing.T) {
 	r.Note("cases enumerated (all shards): %d; outcome classes in this shard: %d", idx+1, len(classes))
 }
 
+// c12hpReplay re-executes the single case of a replay file written by check.py and prints what happened.
+func c12hpReplay(t *testing.T, path string) {
+	w := c12hpGetWorld()
+	r := vrep.New("C12", "holepunch-replay")
+	defer r.Flush()
+	var f struct {
+		Key    string `json:"key"`
+		Replay struct {
+			Side string          `json:"side"`
+			Case json.RawMessage `json:"case"`
+		} `json:"replay"`
+	}
+	b, err := os.ReadFile(path)
+	if err == nil {
+		err = json.Unmarshal(b, &f)
+	}
+	if err != nil {
+		r.Cap("cannot read replay file %s: %v", path, err)
+		return
+	}
+	var vs []c12hpViol
+	var shown any
+	switch f.Replay.Side {
+	case "initiator":
+		var c c12hpInitCase
+		if err := json.Unmarshal(f.Replay.Case, &c); err != nil {
+			r.Cap("bad initiator case: %v", err)
+			return
+		}
+		o := c12hpRunInit(t, w, &c)
+		fmt.Printf("replay (initiator): %s\n", c.describe(w))
+		vs, shown = c12hpCheckInit(w, &c, &o), o
+		r.Sample(map[string]any{"case": c.describe(w), "observed": o})
+	case "receiver":
+		var c c12hpRecvCase
+		if err := json.Unmarshal(f.Replay.Case, &c); err != nil {
+			r.Cap("bad receiver case: %v", err)
+			return
+		}
+		o := c12hpRunRecv(t, w, &c)
+		fmt.Printf("replay (receiver): %s\n", c.describe())
+		vs, shown = c12hpCheckRecv(w, &c, &o), o
+		r.Sample(map[string]any{"case": c.describe(), "observed": o})
+	default:
+		r.Cap("replay file %s has no side", path)
+		return
+	}
+	r.Executions = 1
+	out, _ := json.MarshalIndent(shown, "  ", " ")
+	fmt.Printf("  observed: %s\n", out)
+	for _, v := range vs {
+		fmt.Printf("  VIOLATES %s: %s\n", v.key, v.desc)
+		r.Violate(v.key, v.desc, map[string]any{"side": f.Replay.Side, "case": f.Replay.Case})
+	}
+	if len(vs) == 0 {
+		fmt.Printf("  no violation in this execution\n")
+	}
+}
+
 func TestVerifC12HP(t *testing.T) {
+	if p := vrep.ReplayPath(); p != "" {
+		if s, _ := vrep.Shard(); s == 0 {
+			c12hpReplay(t, p)
+		}
+		return
+	}
 	c12hpReceiver(t)
 	c12hpInitiator(t)
 }
